@@ -33,9 +33,9 @@ def _obs_trace(tr, atys, rty, universe, stored=None):
     return {"args": args, "ret": ret, "score": score, "choices": ch, "lookup_errors": errs}
 
 
-def _flatten_request(req):
+def _flatten_request(req, _in_vector=False):
     """The constraint a (backward) request amounts to, when it is built from Update / EmptyRequest /
-    StaticRequest only; None otherwise."""
+    StaticRequest (and one level of scan's VectorRequest) only; None otherwise."""
     from genjax import ChoiceMap, EmptyRequest, StaticRequest, Update
 
     if isinstance(req, Update):
@@ -45,7 +45,7 @@ def _flatten_request(req):
     if isinstance(req, StaticRequest):
         out = ChoiceMap.empty()
         for addr, sub in req.addressed.items():
-            c = _flatten_request(sub)
+            c = _flatten_request(sub, _in_vector)
             if c is None:
                 return None
             out = out | c.extend(*(addr if isinstance(addr, tuple) else (addr,)))
@@ -55,7 +55,9 @@ def _flatten_request(req):
         import jax
         import jax.numpy as jnp
 
-        c = _flatten_request(req.request)
+        if _in_vector:
+            return None        # nested vector requests: leaves carry two index axes, not observed
+        c = _flatten_request(req.request, True)
         if c is None:
             return None
         leaves = jax.tree.leaves(c)
@@ -519,6 +521,10 @@ def run_case(case):
             results.append({"err": "other:NotIntegral", "msg": str(e)})
         except Exception as e:  # noqa: BLE001
             results.append({"err": gfi.err_kind(e), "msg": str(e)[:300], "tb": traceback.format_exc()[-1500:]})
+            if kind == "bwd" and "harness/" not in traceback.format_exc().splitlines()[-3]:
+                # C06: applying the returned backward request must succeed
+                fails.append({"prop": "C06", "why": "applying the returned backward request raised",
+                              "error": type(e).__name__, "msg": str(e)[:200]})
         preds.append(fails)
     for r in results:
         if "tr" in r:
